@@ -47,3 +47,22 @@ func TestReplay(t *testing.T) {
 		}
 	}
 }
+
+func TestC03(t *testing.T) { runMachine(t, CfgC03) }
+func TestC04(t *testing.T) { runMachine(t, CfgC04) }
+func TestC05(t *testing.T) { runMachine(t, CfgC05) }
+func TestC11(t *testing.T) { runMachine(t, CfgC11) }
+func TestC06(t *testing.T) { runMachine(t, CfgC06) }
+func TestC12(t *testing.T) { runMachine(t, CfgC12) }
+func TestC08(t *testing.T) { runMachine(t, CfgC08) }
+func TestC15(t *testing.T) { runMachine(t, CfgC15) }
+
+// TestRules prints the non-triviality rule of every machine (read by the driver).
+func TestRules(t *testing.T) {
+	out := map[string]string{}
+	for k, c := range Machines {
+		out[k] = c.Rule
+	}
+	bz, _ := json.Marshal(out)
+	fmt.Printf("RULES %s\n", bz)
+}
